@@ -8,7 +8,9 @@
 open Rcommon
 open NoteModel
 
-let note_size = 112 and off_mu = 48 and off_notified = 84
+(* layout of struct nsync_note_s_: note_mu is at +48; the offset of `notified` is learnt from the first note.c event
+   (it moved from +84 to +88 when the `adoptions` field was added) *)
+let off_mu = 48 and off_notified = ref (-1)
 let site_code fn ord =
   match fn with
   | "note_notify_child" -> 10 + ord | "notify" -> 20 + ord | "nsync_note_notified_deadline_" -> 30 + ord
@@ -119,7 +121,8 @@ let () =
       if expects t <> 1 then fail (Printf.sprintf "implementation is at note.c site %d, model expects kind %d" key (expects t));
       (* which note (for the `notified` word) *)
       let touched, check_note =
-        if off = off_notified && String.length region > 3 && String.sub region 0 3 = "blk" then
+        if e.kind = "load" && !off_notified < 0 then off_notified := off;
+        if off = !off_notified && String.length region > 3 && String.sub region 0 3 = "blk" then
           (fun n -> bind n region), true
         else (fun _ -> ()), false in
       let pre_fp = match note_of_region region with Some n when check_note -> [n] | _ -> [] in
@@ -169,7 +172,7 @@ let () =
           | EvUnlock m -> if int_of_nat m <> n then fail (Printf.sprintf "implementation unlocks note %d, model note %d" n (int_of_nat m))
           | _ -> fail (Printf.sprintf "implementation releases note %d, the model's step is not an unlock" n)
         end
-      end else if e.kind = "malloc" && e.a = note_size && expects t = 2 then begin
+      end else if e.kind = "malloc" && expects t = 2 then begin
         match do_step t (not e.ok) [] with
         | EvMalloc (Some n) -> if not e.ok then fail "malloc outcome differs"; bind (int_of_nat n) (Printf.sprintf "blk%d" e.b); cover "malloc"
         | EvMalloc None -> if e.ok then fail "malloc outcome differs"; cover "malloc_fail"
